@@ -21,6 +21,9 @@ CLAIMED = {
  "C12": ("dominance of the token-minting calls by the conjunction of code/client/expiry/redirect/type facts, decision-structure classification of the client-authentication flag, shape check of the PKCE verifier, store-provenance of token fields",
          "Both minting calls of the token endpoint are dominated on all paths by the verified code, client authentication, client==code.sub, strict expiry, equal redirect_uri and the code type; the authentication flag is true only from PKCE (secret-less client) or a non-empty secret; the PKCE verifier compares against the challenge decrypted from the same code; token/code/userinfo fields have the stated provenance (field-store analysis).",
          "Trusts go-jose and JSON encoding. Field provenance is judged per store into the token structs in the current source.", "DESIGN.md §3 C12"),
+ "C07": ("value-identity and CFG-reachability rules in the LDAP authenticator, guard-fact dominance for refresh/evict and cache acceptance, provenance of the normalised user name, sibling agreement of the password backends",
+         "On the answered edge the directory's boolean is returned unmodified after the refresh/evict helper, and the cache lookup is CFG-unreachable from that edge; refresh uses the 96 h constant and evicts only a matching hash; the cache accepts only a verified, unexpired record of the same user whose hash matches; both entry points normalise the name and mint the session for that value; every backend returns true only from its verifier's success edge.",
+         "Trusts argon2/bcrypt, go-jose and the LDAP library. Outage/tamper histories are not enumerated; the rules are necessary structural conditions on every path.", "DESIGN.md §3 C07"),
  "C08": ("per-accessor operand binding (own user / equality / admin fact) by guard-fact dataflow followed through parameters into callers; structural check of admin predicates and cache",
          "Every profile/user-store accessor reachable from a service route has its user operand bound to the authenticated user, compared equal to it, or guarded by the administrator fact of its operation class, on every path; IsAdminUserAndU2F, IsAdminUser, the admin cache and automation-certificate minting have the required shape.",
          "Trusts go/types+go/ssa; directory content is out of scope. Operation classes (read / write / user administration) are a reviewed table keyed by handler.", "DESIGN.md §3 C08"),
